@@ -79,7 +79,19 @@ def getter_kinds(m):
                 else:
                     kinds.add('other')
             kind = next(iter(kinds)) if len(kinds) == 1 else 'other'
-        out[names[0]] = kind
+        if isinstance(v, (ast.List, ast.Tuple)) and not v.elts or (isinstance(v, ast.Call) and call_name(v) == 'list' and not v.args):
+            kind = 'emptylist'
+        # several returns in one arm: a None among them makes the attribute "not applicable" for some objects (Locate then skips the
+        # filter for those); an empty list joins the kind of the other returns
+        prev = out.get(names[0])
+        if prev is None or prev == kind or prev == 'emptylist':
+            out[names[0]] = kind
+        elif kind == 'emptylist':
+            pass
+        elif 'none' in (prev, kind):
+            out[names[0]] = 'none'
+        else:
+            out[names[0]] = 'other'
     return out
 
 
@@ -347,6 +359,8 @@ def run(ctx):
         op = p[1]
         for nm in names:
             sk = kinds.get(nm, 'other')
+            if sk == 'none':
+                continue          # reported by C14.R3
             if op in ('In', 'NotIn'):
                 good = (sk, ok_) in (('wrapperlist', 'wrapper'), ('rawlist', 'raw'), ('dictlist', 'dict'), ('raw', 'raw-element'), ('rawlist', 'raw-element'))
                 # `mask_value not in attribute`: element of a decoded raw mask list against the raw stored list
